@@ -26,6 +26,7 @@ def cases(draw):
     tests = []
     open_tags = []     # threads held and not yet released
     renamable = set()
+    raw_unregistered = set()
     tag = 0
     for i in range(ntests):
         t = {'n': 'test_%02d' % i, 'k': draw(st.sampled_from(['pass', 'pass', 'pass', 'fail', 'error', 'skip_body'])),
@@ -60,6 +61,12 @@ def cases(draw):
             if g not in rel and g in renamable and draw(st.integers(0, 3)) == 0:
                 phases[draw(st.sampled_from(['setUp', 'body', 'tearDown']))].append(
                     ['thread', {'op': 'rename', 'tag': g, 'name': draw(st.sampled_from(NAMES[2:] + ['job-7']))}])
+        # a raw thread left by an earlier test calls into ``threading`` for the first time (logging does that)
+        for g in open_tags:
+            if g not in rel and g in raw_unregistered and draw(st.integers(0, 2)) == 0:
+                phases[draw(st.sampled_from(['setUp', 'body', 'tearDown']))].append(
+                    ['thread', {'op': 'register', 'tag': g}])
+                raw_unregistered.discard(g)
         relacts = [['thread', {'op': 'release', 'tag': g}] for g in rel]
         if release_first:
             phases['setUp'] = relacts + phases['setUp']
@@ -72,6 +79,8 @@ def cases(draw):
                 open_tags.append(a['tag'])
                 if a['api'] == 'threading':
                     renamable.add(a['tag'])
+                elif not a.get('register'):
+                    raw_unregistered.add(a['tag'])
         t['acts'] = {k: v for k, v in phases.items() if v}
         tests.append(t)
     spec = {'layers': [], 'modules': [{'name': 'a', 'tree': {'t': 's', 'ch': [
@@ -96,7 +105,7 @@ def oracle(spec, opts, run):
     released_in = {}    # tag -> test in which it was released
     cur = None
     order = []
-    renamed = False
+    renamed = late_reg = False
     for e in run.trace:
         if e['ev'] == 'T' and e['ph'] == 'setUp':
             cur = e['s']
@@ -105,6 +114,8 @@ def oracle(spec, opts, run):
             started[e['tag']] = dict(test=cur, ident=e['ident'], name=e['name'], api=e['api'], hold=e['hold'])
         elif e['ev'] == 'thread_released':
             released_in[e['tag']] = cur
+        elif e['ev'] == 'thread_registered':
+            late_reg = True
         elif e['ev'] == 'thread_renamed':
             # (generated in tests after the one that started the thread: the thread existed before, whatever it is called)
             renamed = True
@@ -156,6 +167,8 @@ def oracle(spec, opts, run):
         labels.append('ident-reuse')
     if renamed:
         labels.append('earlier-thread-renamed')
+    if late_reg:
+        labels.append('raw-thread-registers-in-later-test')
     if any(e['ev'] == 'T' and e['ph'] == 'setUp' for e in run.trace) and any(
             a[1].get('falsy') for _, t in _iter_tests(spec) for acts in (t.get('acts') or {}).values() for a in acts
             if a[0] == 'thread'):
@@ -167,7 +180,7 @@ def oracle(spec, opts, run):
         labels.append('release-in-leaking-test')
     if nleak_tests:
         labels.append('leaks')
-    return viol, labels, rel_in_leaking or (renamed and bool(pats))
+    return viol, labels, rel_in_leaking or (renamed and bool(pats)) or late_reg
 
 
 class InProc(Part):
@@ -199,7 +212,7 @@ class C19(Prop):
     rule = ('Hypothesis histories: 1..6 tests, 0..3 thread starts per test (API, name, hold/join, phase; raw threads with or without a threading._DummyThread entry), releases of '
             'earlier leaks at the beginning or end of later tests, renames of threads left by earlier tests, Thread subclasses '
             'that are false in a boolean context, 12 ignore-pattern sets. Non-trivial = a leak from an '
-            'earlier test is released in a test that itself leaks, or an earlier thread is renamed while ignore patterns are in use. Distinct by hash of the case.')
+            'earlier test is released in a test that itself leaks, or an earlier thread is renamed while ignore patterns are in use, or a raw thread left by an earlier test first calls into threading in a later test. Distinct by hash of the case.')
     assumptions = ('a thread counts as ended once it left sys._current_frames() and (for Thread objects) was joined',)
     parts = (InProc(),)
 
